@@ -301,7 +301,9 @@ def run_fit(ctx):
         th_ref, _ = scipy.optimize.nnls(L.T @ X, L.T @ y)
     s_got, s_ref = score(theta), score(th_ref)
     tol = 5e-4 if method.endswith('_cov') else 1e-7
-    if not np.isfinite(s_got) or s_got < s_ref - tol:
+    if not np.isfinite(s_ref):
+        ctx.count('degenerate_skipped')    # the entry-deleted (non-negative) least-squares solution is the zero vector
+    elif not np.isfinite(s_got) or s_got < s_ref - tol:
         ctx.fail('fit_common_mask', sig, f'fit on NaN-bearing bootstrap sample scores {s_got} on the '
                  f'entry-deleted vectors, the entry-deleted least-squares solution scores {s_ref}',
                  wit(theta=theta, theta_ref=th_ref))
@@ -428,7 +430,7 @@ def run_rescale(ctx):
 
 
 def run(ctx):
-    n = ctx.n(240, 900)
+    n = ctx.n(240, 5000)
     for it in range(n):
         if ctx.out_of_time():
             ctx.notes.append(f'time budget reached after {it} rounds')
